@@ -1,4 +1,4 @@
-import Claripy.VSA.Arith
+import Claripy.VSA.MulDiv
 /-! Shifts, `cast_low`, `extract`, `concat`, `zero_extend`, `sign_extend` (as repaired). -/
 namespace Claripy.VSA
 
